@@ -117,6 +117,9 @@ func (u *Unit) callFunction(fc *frameCtx, fn *ssa.Function, args []*SV, st *Stat
 	}
 	con := u.e.contracts[name]
 	if con != nil && con.Transparent || con == nil && u.e.autoTransparent(fn) {
+		if con != nil {
+			u.usedContracts[name] = true
+		}
 		if len(fn.Blocks) == 0 {
 			panic(unsupported("transparent function %s has no body", name))
 		}
@@ -208,6 +211,8 @@ func (u *Unit) callByContractOrDefault(fc *frameCtx, name string, con *Contract,
 	}
 	if con.External || con.Trusted {
 		u.usedTrusted["assumed contract: "+name] = true
+	} else {
+		u.usedContracts[name] = true
 	}
 	// parameter environment
 	env := u.contractEnv(con, sig, invoke, args, st, pc, name)
@@ -454,7 +459,7 @@ func (u *Unit) addModifies(fr *FrameSpec, env *SpecEnv, m Expr) {
 			}
 		}
 	}
-	v := env.eval(m)
+	v := env.evalLazy(m)
 	// *p / p.f / s[i]: an lvalue -> its leaves; a pointer-typed rvalue p -> leaves of *p
 	if un, ok := m.(*EUnary); ok && un.Op == "*" {
 		var locs []leafLoc
@@ -469,6 +474,7 @@ func (u *Unit) addModifies(fr *FrameSpec, env *SpecEnv, m Expr) {
 		return
 	}
 	if pt, ok := derefType(v.t); ok {
+		v = env.force(v)
 		var locs []leafLoc
 		u.leafAddrs(v.v.T, pt, &locs)
 		fr.Leaves = append(fr.Leaves, locs...)
